@@ -416,7 +416,7 @@ def run(chk, replay=None):
     chk.assumptions.append('zipfile: member names are taken verbatim (generated names contain no NUL; ZipFile.write() runs normpath over the name '
                            'of a by-file picture, which is "Pictures/<uuid><splitext ext>" and already normal)')
     chk.assumptions.append('uuid4 gives a fresh name on every call (hrefs of generated pictures are distinct); mimetypes.guess_type/guess_extension not modelled')
-    chk.prove(modules=['OdfModel.Props.C03', 'OdfModel.Props.C03Xml'], drivers=['drv_pkg'])
+    chk.prove(modules=['OdfModel.Props.C03', 'OdfModel.Props.C03Xml', 'OdfModel.Props.C03XmlHist'], drivers=['drv_pkg'])
     drv = chk.driver('drv_pkg')
     n = 6000 if chk.tier == 'thorough' else 900
 
